@@ -16,7 +16,7 @@ RULE = ('cases = generated programs for 2-3 connections on one DB (file/mapping/
         'commit completed before it; evaluations = steps; non-trivial = a read of an object for which another connection '
         'committed a newer revision after the reader\'s boundary'
         "; half of the cases are THREAD cases: 2-4 real threads (committers, readers, in 3 of 10 file/mapping cases also a packer thread with a generated pack time) on one DB run under the harness's deterministic scheduler (vlib/sched.py: one run token, yield points at every ZODB lock/condition operation, every file operation of the storage and, in half of them, every source line of the commit/poll/load functions); the schedule is generated (dense random choices, or few targeted preemptions 'at the n-th release/acquire/file/line point hand over to thread k'); oracles over the event log and the final storage: every read is the revision current at the reading connection's snapshot bound (serial < bound <= tid of the next revision), all reads of one transaction were current together, the snapshot is not older than any commit that had returned before the boundary began, every stored revision was derived from its immediate predecessor, every returned commit is stored, counters equal the sum of successful increments, no deadlock; non-trivial thread case = >= 1 preemption and >= 1 successful write commit"
-        '; distinct by program hash')
+        '; distinct by program hash; later additions: undoer threads, a share of write-heavy sequential programs (conflicting and savepoint commits), commit-race schedules (a committer held at the n-th operation on a storage/adapter lock while a second committer or a re-reading reader runs) and the oracle that no commit becomes visible below a snapshot bound some connection already holds')
 ASSUMPTIONS = ['thread cases: preemption happens only at the scheduler\'s yield points (ZODB lock/condition operations, storage '
                'file operations, source lines of the watched commit/poll/load functions); code between two yield points is atomic; '
                'C-level races inside BTrees/persistent/pickle are not explored',
